@@ -78,6 +78,37 @@ def json_case(draw):
             'follow': draw(st.booleans())}
 
 
+NONFINITE = [(b'{"big": 1e999}', {'big': float('inf')}), (b'[-1e400, 1]', [float('-inf'), 1]),
+             (b'{"a": {"b": [1E+9999]}}', {'a': {'b': [float('inf')]}}), (b'{"n": NaN}', None),
+             (b'[Infinity, -Infinity]', [float('inf'), float('-inf')])]
+
+
+def nonfinite_cases(tier, seed):
+    return [[i, kind, plugins] for i in range(len(NONFINITE)) for kind in ('UD', 'ED') for plugins in (0, 1)]
+
+
+@PROP.enum('builtin-json-nonfinite', nonfinite_cases, chunk=4, exhaustive=True)
+def builtin_json_nonfinite(case, note):
+    """number literals that overflow a double (valid JSON) and the NaN / Infinity tokens the JSON reader
+    accepts: the section - and the rest of the PEL - must still be shown"""
+    i, kind, plugins = case
+    raw, value = NONFINITE[i]
+    sec, phc = mk_section(kind, 1, 1, 0x2000, raw + b'\x00', BMC)
+    after = {'k': 'RAW', 'id': 0x5A5A, 'ver': 0, 'sub': 0, 'comp': 0, 'data': b'\x01\x02'}
+    pel, idx = wrap(sec, phc, None, after)
+    name, entry = find_entry(pel, bool(plugins), idx)
+    if value is not None:
+        shown = entry if isinstance(value, dict) else entry.get('Data')
+        if isinstance(value, dict):
+            for k, v in value.items():
+                if shown.get(k) != v:
+                    raise Violation('C04.json-value', '%s: JSON payload %r: key %r shown as %r' % (name, raw, k, shown.get(k)),
+                                    sig='C04.json-value')
+        elif shown != value:
+            raise Violation('C04.json-value', '%s: JSON payload %r shown as %r' % (name, raw, shown), sig='C04.json-value')
+    note.nontrivial = True
+
+
 @PROP.given('builtin-json', lambda tier: json_case(), quick=3000, thorough=50000, shards_quick=8)
 def builtin_json(case, note):
     data = case['lead'].encode() + case['raw'] + b'\x00' * case['nuls']
